@@ -25,3 +25,9 @@ def pixel_to_skycoord(xp, yp, wcs, origin=0, mode='all', cls=None):
 
 def skycoord_to_pixel(coords, wcs, origin=0, mode='all'):
     return wcs._world_to_pixel(coords, origin, mode)
+
+
+def wcs_to_celestial_frame(wcs):
+    """the celestial frame the WCS's world coordinates are expressed in"""
+    from astropy.coordinates import frame_of
+    return frame_of(wcs.frame)
